@@ -28,6 +28,9 @@
   (p) two adjacent, mutually independent, call-free assignments to locals are put into the order the reference tree binds those locals
   (q) `if c: …return` followed by the rest of the block  <->  `if c: …return else: rest`, towards the shape the reference tree has for that test
 
+  (r) a function / method that the reference tree does not have, called from exactly one place as `h(a, b)` / `self.h(a, b)` (statement, or
+      `x = …` with a single trailing `return e`), whose parameters are bound to plain names, is inlined at that call (undoes "extract method")
+
 (c) is a pure renaming: it is applied only when it is capture-free (the reference name is not otherwise used in the function).
 The rules therefore see the same program whether a developer renamed `index` to `pos`, rewrote `x += 1` as `x = x + 1` or swapped
 the arms of an `if`. Line numbers are untouched.
@@ -674,7 +677,106 @@ def _orient_else_shapes(fn: ast.FunctionDef, ref_shape: Dict[str, bool]) -> None
 SIGNATURES: Dict[str, List[str]] = {}
 
 
+def _inline_new_helpers(relpath: str, tree: ast.Module) -> None:
+    ref = _ref()
+    if not any(k.startswith(relpath + "::") for k in ref):
+        return
+    import copy
+
+    def scopes():
+        yield "", tree.body, None
+        for st in tree.body:
+            if isinstance(st, ast.ClassDef):
+                yield st.name + ".", st.body, st
+    for prefix, body, cls in list(scopes()):
+        for h in [st for st in body if isinstance(st, ast.FunctionDef)]:
+            if f"{relpath}::{prefix}{h.name}" in ref or h.name.startswith("__") or h.decorator_list:
+                continue
+            a = h.args
+            if a.vararg or a.kwarg or a.kwonlyargs or a.posonlyargs or a.defaults:
+                continue
+            params = [x.arg for x in a.args]
+            if cls is not None:
+                if not params or params[0] != "self":
+                    continue
+                params = params[1:]
+            # shape of the helper: no yield, no nested defs; returns: none, or exactly one `return e` as last statement
+            if any(isinstance(x, (ast.Yield, ast.YieldFrom, ast.FunctionDef, ast.Lambda, ast.Global, ast.Nonlocal)) for st in h.body for x in ast.walk(st)):
+                continue
+            rets = [x for st in h.body for x in ast.walk(st) if isinstance(x, ast.Return)]
+            tail = h.body[-1] if h.body else None
+            if len(rets) > 1 or (rets and rets[0] is not tail):
+                continue
+            # call sites in the whole module
+            sites = []
+            for n in ast.walk(tree):
+                if isinstance(n, ast.Call):
+                    fn = n.func
+                    if (cls is None and isinstance(fn, ast.Name) and fn.id == h.name) or \
+                            (cls is not None and isinstance(fn, ast.Attribute) and fn.attr == h.name and isinstance(fn.value, ast.Name) and fn.value.id == "self"):
+                        sites.append(n)
+            refs = [n for n in ast.walk(tree) if (isinstance(n, ast.Name) and n.id == h.name) or (isinstance(n, ast.Attribute) and n.attr == h.name)]
+            if len(sites) != 1 or len(refs) != 1:
+                continue
+            call = sites[0]
+            if call.keywords or len(call.args) != len(params) or not all(isinstance(x, ast.Name) for x in call.args):
+                continue
+            # find the statement list holding the call as a whole statement
+            done = False
+            for p in ast.walk(tree):
+                if done:
+                    break
+                for fld in ("body", "orelse", "finalbody"):
+                    lst = getattr(p, fld, None)
+                    if not isinstance(lst, list):
+                        continue
+                    for i, st in enumerate(lst):
+                        as_stmt = isinstance(st, ast.Expr) and st.value is call
+                        as_assign = isinstance(st, ast.Assign) and st.value is call and rets and rets[0].value is not None
+                        if not (as_stmt or as_assign):
+                            continue
+                        # the helper's own locals must not meet names of the caller
+                        owner = None
+                        for q in ast.walk(tree):
+                            if isinstance(q, ast.FunctionDef) and q is not h and any(x is st for x in ast.walk(q)):
+                                owner = q  # innermost is found last in walk order only for nested defs; good enough: nested defs are not inlined into
+                        h_locals = {x.id for b in h.body for x in ast.walk(b) if isinstance(x, ast.Name) and isinstance(x.ctx, ast.Store)} - set(params)
+                        if owner is None or any(isinstance(x, ast.Name) and x.id in h_locals for x in ast.walk(owner)):
+                            continue
+                        mapping = {pn: an.id for pn, an in zip(params, call.args) if pn != an.id}
+                        new_body = copy.deepcopy(h.body)
+                        # locals of the helper must not clash with names of the caller other than through the parameters
+                        caller = p if isinstance(p, ast.FunctionDef) else None
+                        if mapping:
+                            used = {x.id for b in new_body for x in ast.walk(b) if isinstance(x, ast.Name)}
+                            if any(v in used for v in mapping.values()):
+                                continue
+                            for b in new_body:
+                                for x in ast.walk(b):
+                                    if isinstance(x, ast.Name) and x.id in mapping:
+                                        x.id = mapping[x.id]
+                        if rets:
+                            last = new_body[-1]
+                            if as_assign:
+                                new_body[-1] = ast.copy_location(ast.Assign(targets=st.targets, value=last.value), st)
+                            elif last.value is None:
+                                new_body = new_body[:-1]
+                            else:
+                                new_body[-1] = ast.copy_location(ast.Expr(value=last.value), st)
+                        for b in new_body:
+                            for x in ast.walk(b):
+                                if hasattr(x, "lineno"):
+                                    x.lineno = getattr(st, "lineno", x.lineno)
+                        lst[i:i + 1] = new_body or [ast.copy_location(ast.Pass(), st)]
+                        body.remove(h)
+                        done = True
+                        break
+                    if done:
+                        break
+
+
 def canonicalise(relpath: str, tree: ast.Module) -> ast.Module:
+    _inline_new_helpers(relpath, tree)
     _inline_new_module_constants(relpath, tree)
     _split_tuple_assigns(tree)
     tree = _Canon().visit(tree)
